@@ -53,7 +53,7 @@ ASSUMPTIONS = ['ceil()/round() decisions are taken on exact rationals by the mod
 PI = F(math.pi)
 ERRMAP = [('Invalid use', 'EUse'), ('duration must be positive', 'EDur'), ('Slice thickness', 'EThick'),
           ('Bandwidth of pulse', 'EBandwidth'), ('One of bandwidth or duration', 'EArgs'),
-          ('Refined amplitude', 'EGradAmp'), ('for ramp up', 'ESlewUp'), ('for ramp down', 'ESlewDown')]
+          ('Refined amplitude', 'EGradAmp'), ('must be positive and `flat_time`', 'ETrapTimes'), ('for ramp up', 'ESlewUp'), ('for ramp down', 'ESlewDown')]
 KF_ARB_SIGN = 'C13/arbitrary-flip-sign'
 
 
@@ -356,7 +356,7 @@ def call_impl(c):
     except (ValueError, ZeroDivisionError, AssertionError) as e:
         return {'ok': False, 'err': classify(e)}
     except TypeError as e:
-        if m == 'arb' and len(c['signal']) == 1 and 'has no len()' in str(e):
+        if m == 'arb' and len(c['signal']) == 1 and ('has no len()' in str(e) or 'unsized object' in str(e)):
             # np.squeeze turns a one-sample signal into a 0-d array and len() fails: side finding, see report
             return {'ok': False, 'err': 'SINGLE-SAMPLE-TYPEERROR'}
         raise
